@@ -82,7 +82,7 @@ struct Eval {
   bool dontcare = false;
   const char* why = "";
   string data, mask;
-  string data_alt;  // identical except floats converted via double (both conversions are accepted)
+  string data_alt;  // == data since round 5 (it used to hold the bytes with floats converted via double, which were accepted too)
 };
 
 bool is_hex(char c) { return (c >= '0' && c <= '9') || (c >= 'a' && c <= 'f') || (c >= 'A' && c <= 'F'); }
@@ -188,9 +188,11 @@ Eval ref_eval(const string& t) {
         double v = strtod(tok.c_str(), nullptr);
         emit(&v, 8, true);
       } else {
+        // the float nearest to the written decimal (strtof is correctly rounded).  Rounds 1-4 also accepted the result
+        // of rounding twice (text -> double -> float); withdrawn in round 5: the syntax defines ONE 32-bit value, and
+        // the two differ in the last bit for decimals just off the midpoint of two floats (seed C09-H)
         float v = strtof(tok.c_str(), nullptr);
-        float v2 = (float)strtod(tok.c_str(), nullptr);
-        emit(&v, 4, true, &v2);
+        emit(&v, 4, true);
       }
     } else if (c == '"' || c == '\'') {
       bool wide = (c == '\'');
